@@ -493,7 +493,8 @@ static Case decode(tape_t const& tape)
 {
     Tape t(tape);
     Case c;
-    c.cfg = decode_config(t, {S_SL_AFTER_RUN, S_DO_YIELD, S_STS_BEFORE_CAS, S_CV_WAIT});
+    c.cfg = decode_config(t, {S_SL_AFTER_RUN, S_DO_YIELD, S_STS_BEFORE_CAS, S_CV_WAIT, S_SPLIT_ADD_CONT, S_SPLIT_PRED_DONE, S_SPLIT_RUN_CONTS, S_ES_ADD_CONT, S_ES_PRED_DONE,
+                                 S_ES_RUN_CONT, S_ST_ADD_CONT, S_ST_PRED_DONE, S_ST_RUN_CONTS, S_WHEN_ALL_FINISH, S_WHEN_ALL_VECTOR_FINISH});
     c.cfg.workers = t.weighted({2, 4, 2, 3}) + 1;
     char const* e = std::getenv("VERIF_AVOID");
     GenCtx g{t, 14, e && std::strstr(e, "split_stopped") != nullptr};
